@@ -327,7 +327,8 @@ func Concretise(c Cell, r *rand.Rand) (Policy, User, error) {
 	case "nonmember":
 		u.Groups = [][]string{{}, {"other"}, {g1 + "x", "x" + g1}, {g1 + " "}, {g1[:len(g1)-1]}, {"contractors", "everyone"}}[r.Intn(6)]
 	case "error":
-		u.Profile = pick(r, "s500", "s403", "badjson", "s404")
+		// (a look-up that fails is not an answer - whatever the failure: at login there is no earlier verdict to fall back on)
+		u.Profile = pick(r, "s500", "s403", "badjson", "s404", "s429", "s503", "closed")
 	case "na":
 		u.Groups = [][]string{{}, {g1}, {"other"}}[r.Intn(3)]
 	}
